@@ -137,9 +137,25 @@ def handleBursts (j : Json) : IO Unit := do
   emit case (stale == 0) (stale == 0) s!"bursts.{jstr (jget j "engine")}.{jstr (jget j "balancer")}" (if stale == 0 then "" else "gauge-nonzero-with-nothing-in-flight-under-concurrent-readers")
     (if stale == 0 then "" else s!"{jstr (jget j "engine")}/{jstr (jget j "balancer")}: {stale} of {jnat (jget impl "rounds")} bursts of {jnat (jget impl "clients")} clients with {jnat (jget impl "watchers")} gauge readers; {jstr (jget impl "first")}")
 
+/-- kind "methods": every method on a proxied path, each answered 200 and received in full: n requests, n successes, no
+    failure, in the collector's global scope, the engine's and the endpoint's (the counters do not depend on the method). -/
+def handleMethods (j : Json) : IO Unit := do
+  let case := jnat (jget j "case")
+  let impl := jget j "impl"
+  if jstr (jget impl "start_err") != "" then
+    emit case false true "start-error" "" (jstr (jget impl "start_err")); return
+  let n : Int := jnat (jget impl "answered_200_in_full")
+  let all := jnat (jget impl "sent") == n.toNat
+  let okScope := fun (k : String) => jintList (jget impl k) == [n, n, 0]
+  let ok := all && okScope "global" && okScope "engine" && okScope "per_endpoint"
+  emit case ok (!all || ok) s!"methods.{jstr (jget j "engine")}" (if !all || ok then "" else "complete-answer-not-recorded-as-success")
+    (if ok then "" else s!"{jstr (jget j "engine")}: {jnat (jget impl "sent")} requests {jstrList (jget impl "seen")}, {n} answered 200 and received in full; [total, ok, failed] global {(jget impl "global").compress} engine {(jget impl "engine").compress} endpoint {(jget impl "per_endpoint").compress}")
+
 def handle (vs : Variants) (j : Json) : IO Unit := do
   if jstr (jget j "kind") == "bursts" then
     handleBursts j; return
+  if jstr (jget j "kind") == "methods" then
+    handleMethods j; return
   let case := jnat (jget j "case")
   let sc := jget j "scenario"
   let impl := jget j "impl"
